@@ -155,13 +155,14 @@ func normFunc(fn string) string {
 // objEqual: "an object equal to the original". The type's own Equal is used when it has one that takes the
 // type itself (promoted Equal methods of embedded fields compare only a part and are not trusted); otherwise
 // a structural comparison (nil and empty slices/maps are the same value, big numbers by value).
-// A panicking Equal counts as "not equal" (several Equal methods index the other operand unchecked).
+// When the type's Equal panics (several index or dereference the other operand unchecked) the structural
+// comparison decides.
 func objEqual(a, b any) (eq bool, how string) {
-	if has, e, pan := ownEqual(a, b); has {
-		if pan != nil {
-			return false, fmt.Sprintf("own Equal panicked: %v", pan)
-		}
+	if has, e, pan := ownEqual(a, b); has && pan == nil {
 		return e, "own Equal"
+	} else if pan != nil {
+		// e.g. rlwe.Element.Equal dereferences a nil MetaData: a defect of Equal, not of serialization
+		return deepEq(reflect.ValueOf(a).Elem(), reflect.ValueOf(b).Elem()), fmt.Sprintf("structural; own Equal panicked: %v", pan)
 	}
 	return deepEq(reflect.ValueOf(a).Elem(), reflect.ValueOf(b).Elem()), "structural"
 }
@@ -414,4 +415,52 @@ func declaresOwn(t reflect.Type, method string) bool {
 		return file != "<autogenerated>"
 	}
 	return real(t.MethodByName(method)) || real(reflect.PtrTo(t).MethodByName(method))
+}
+
+// jsonDeclared: the type itself declares MarshalJSON or UnmarshalJSON (rather than inheriting them from an
+// embedded field).
+func jsonDeclared(ptr any) bool {
+	t := reflect.TypeOf(ptr).Elem()
+	return declaresOwn(t, "MarshalJSON") || declaresOwn(t, "UnmarshalJSON")
+}
+
+// embedderName: the outermost-to-innermost chain of embeddings that promotes `method` ends in the type that
+// declares it; the type just before it is the one whose embedding creates the promotion.
+func embedderName(ptr any, method string) string {
+	t := reflect.TypeOf(ptr).Elem()
+	for {
+		if t.Kind() != reflect.Struct || declaresOwn(t, method) {
+			return baseName(t)
+		}
+		var next reflect.Type
+		for i := 0; i < t.NumField(); i++ {
+			f := t.Field(i)
+			if !f.Anonymous {
+				continue
+			}
+			ft := f.Type
+			if ft.Kind() == reflect.Ptr {
+				ft = ft.Elem()
+			}
+			if _, ok := reflect.PtrTo(ft).MethodByName(method); ok {
+				next = ft
+				break
+			}
+		}
+		if next == nil || declaresOwn(next, method) {
+			return baseName(t)
+		}
+		t = next
+	}
+}
+
+// baseDecl is declName without type arguments ("structs.Map.ReadFrom"): for defects of a generic container's
+// own logic, which do not depend on the instantiation.
+func baseDecl(ptr any, method string) string {
+	s := declName(ptr, method)
+	i, j := strings.Index(s, "["), strings.LastIndex(s, "]")
+	if i >= 0 && j > i {
+		s = s[:i] + s[j+1:]
+	}
+	return s
 }
